@@ -29,6 +29,9 @@ func main() {
 	if len(os.Args) > 1 && os.Args[1] == "-c07seeds" {
 		// developer aid: how does every seed fare on the real decoder?
 		for _, ep := range buildRegistry(len(os.Args) > 2 && os.Args[2] == "thorough") {
+			if ep.Name == selfTestName {
+				continue
+			}
 			for i, s := range ep.Seeds {
 				o := call(ep, s)
 				out := "value"
